@@ -732,6 +732,9 @@ fn global_invariants(s: &mut VaultScen, ctx: &mut Ctx, before: &Obs, after: &Obs
     }
     // C07 vault ledger
     ctx.eval("C07");
+    if after.pending > after.bal {
+        ctx.fail("C07", "pending_fees_held", "pending_gt_balance", None, format!("{opname}: the vault owes {} of protocol fees but holds only {}", after.pending, after.bal));
+    }
     let expect = s.model.charged.saturating_sub(s.model.received);
     if after.pending != expect {
         ctx.fail("C07", "vault_pending_ledger", "pending_ne_charged_minus_received", None,
@@ -884,6 +887,27 @@ fn do_deposit(s: &mut VaultScen, ctx: &mut Ctx, actor: usize, amount: u128, sent
             let cap = muldiv(amount, before.share, backing.max(1));
             if u256(minted_total) > cap || minted_user != minted_total {
                 ctx.fail("C05", "deposit_share", "over_mint", None, format!("deposit {amount} with backing {backing} supply {} minted {minted_total} (user +{minted_user}) > pro-rata {cap}", before.share));
+            }
+            // C07: the ledger that counts as "not the depositors'" on the deposit path is the PENDING
+            // one: a mint that differs from the documented floor(amount * S / (balance - pending)) and
+            // equals the same formula with the all-time total, or with nothing, deducted instead shows
+            // that deposits are priced with the wrong ledger
+            if before.pending > 0 || before.all_time > 0 {
+                ctx.eval("C07");
+                ctx.probe("vault_deposit_with_fee_history");
+                if u256(minted_total) != cap {
+                    for (what, ded) in [("the all-time total", before.all_time), ("nothing", 0u128)] {
+                        if ded == before.pending {
+                            continue;
+                        }
+                        let alt = muldiv(amount, before.share, before.bal.saturating_sub(ded).max(1));
+                        if before.bal > ded && u256(minted_total) == alt {
+                            ctx.fail("C07", "vault_deposit_priced_net_of_pending_fees", "wrong_ledger_deducted", None,
+                                format!("deposit {amount}: balance {} pending {} all-time {} supply {}: minted {minted_total}; deducting the pending fees gives {cap}, deducting {what} gives exactly {alt}", before.bal, before.pending, before.all_time, before.share));
+                            break;
+                        }
+                    }
+                }
             }
         }
         ctx.state_of(&obs_key(&after));
